@@ -13,6 +13,7 @@ import (
 	"go/types"
 	"reflect"
 	"sort"
+	"strconv"
 	"strings"
 )
 
@@ -951,6 +952,21 @@ func (e *Engine) decodeAny(d *Doc) Value {
 	case DStr:
 		return Iface{T: types.Typ[types.String], V: d.leaf}
 	case DNum:
+		if e.jsonUseNumber {
+			// Decoder.UseNumber: numbers reach interface targets as json.Number (a string type)
+			if nt := e.jsonNumberType(); nt != nil {
+				switch x := d.leaf.(type) {
+				case int64:
+					return Iface{T: nt, V: strconv.FormatInt(x, 10)}
+				case uint64:
+					return Iface{T: nt, V: strconv.FormatUint(x, 10)}
+				case float64:
+					return Iface{T: nt, V: strconv.FormatFloat(x, 'g', -1, 64)}
+				case *Term:
+					return Iface{T: nt, V: strconv.FormatInt(e.concretizeInt(x, "json number into json.Number"), 10)}
+				}
+			}
+		}
 		switch x := d.leaf.(type) {
 		case float64:
 			return Iface{T: types.Typ[types.Float64], V: x}
@@ -1110,4 +1126,16 @@ func (e *Engine) renderConcreteDoc(d *Doc, mv func(Value) ModelValue) string {
 		return "{" + strings.Join(parts, ",") + "}"
 	}
 	return "null"
+}
+
+// jsonNumberType finds encoding/json.Number in the loaded program.
+func (e *Engine) jsonNumberType() types.Type {
+	for _, p := range e.prog.AllPackages() {
+		if p.Pkg.Path() == "encoding/json" {
+			if t := p.Type("Number"); t != nil {
+				return t.Type()
+			}
+		}
+	}
+	return nil
 }
